@@ -105,12 +105,9 @@ def run_cli(args, cwd):
 def parse(out, fmt):
     """-> (verdict, sorted diagnostics) or None when the run did not reach a verdict"""
     if fmt == "json":
-        start = out.find('{"files"')
-        if start < 0:
-            return None
-        try:
-            data = json.loads(out[start:].split("\n")[0])
-        except Exception:
+        from vp.replay.cli_harness import json_report
+        data = json_report(out)
+        if data is None or not data["files"]:
             return None
         f = data["files"][0]
         return f["status"], sorted((e["level"], e["name"], e["highlights"][0]["lineno"], e["highlights"][0]["column"])
@@ -208,7 +205,7 @@ def op_cli(task):
 def op_same_content(task):
     """content stored in two files of one run (same bytes, same base name, different directories)
     gets, for each of them, the diagnostics of the same content passed inline"""
-    viol, cases = [], 0
+    viol, cases, unreadable = [], 0, []
     texts = [HEADER.format(name="ft_nine.c") + "\nint\tft_nine(void)\n{\n\treturn (09);\n}\n",
              HEADER.format(name="ft_nine.c") + "\nint\tft_nine(void)\n{\n\treturn ('ab' + 0b12);\n}\n",
              "int\tg_mode = 0389;\n"]
@@ -223,13 +220,13 @@ def op_same_content(task):
             rc, out, _ = run_cli(["-f", "json", "--cfile", text, "--filename", "ft_nine.c"], d)
             ref = parse(out, "json")
             rc, out, _ = run_cli(["-f", "json", os.path.join("libft", "ft_nine.c"), os.path.join("push_swap", "libft", "ft_nine.c")], d)
-            start = out.find('{"files"')
-            try:
-                data = json.loads(out[start:].split("\n")[0])
-            except Exception:
-                data = None
-            if ref is None or data is None or len(data["files"]) != 2:
-                viol.append(f"no comparable reports for two stored copies of {text[-30:]!r}")
+            from vp.replay.cli_harness import json_report
+            data = json_report(out)
+            if ref is None or data is None:
+                unreadable.append(f"no readable reports for two stored copies of {text[-30:]!r}")
+                continue
+            if len(data["files"]) != 2:
+                viol.append(f"{len(data['files'])} files reported for two stored copies of {text[-30:]!r}")
                 continue
             for f in data["files"]:
                 got = (f["status"], sorted((e["level"], e["name"], e["highlights"][0]["lineno"], e["highlights"][0]["column"])
@@ -238,7 +235,7 @@ def op_same_content(task):
                     viol.append(f"{os.path.relpath(f['path'], d)}: stored copy reports {got[1]}, the same content inline {ref[1]}")
         finally:
             shutil.rmtree(d, ignore_errors=True)
-    return {"cases": cases, "violations": viol}
+    return {"cases": cases, "violations": viol, "unreadable": unreadable}
 
 
 def op_cli_one(task):
